@@ -132,6 +132,8 @@ class World(object):
         self.knowledge = {}          # app -> set of mailbox ids learned from `claimed`
         self.conn_app = {}           # index -> (app, side) as sent in an accepted bind
         self._cur = None
+        self._rows_cache = None
+        self._urows_cache = None
         self._log_errors = []
         self.t = float(self.cfg["t0"])
         self.restarts = 0
@@ -301,14 +303,25 @@ class World(object):
             self.quiet = q
         return out
 
-    def channel_rows(self, db=None):
+    def channel_rows(self, db=None, fresh=False):
         """Channel tables as lists of dicts; nameplates.id / nameplate_sides.nameplates_id are
-        replaced by a structural token (app, name, k) because the integer is a generated name."""
-        raw = self._read(db or self.channel_db, CHANNEL_TABLES)
-        return tokenize_nameplate_ids(raw)
+        replaced by a structural token (app, name, k) because the integer is a generated name.
+        The snapshot taken at the end of a step is reused as the `before` of the next one (nothing
+        but a step writes to the database)."""
+        if db is None and not fresh and self._rows_cache is not None:
+            return self._rows_cache
+        raw = tokenize_nameplate_ids(self._read(db or self.channel_db, CHANNEL_TABLES))
+        if db is None:
+            self._rows_cache = raw
+        return raw
 
-    def usage_rows(self, db=None):
-        return self._read(db or self.usage_db, USAGE_TABLES)
+    def usage_rows(self, db=None, fresh=False):
+        if db is None and not fresh and self._urows_cache is not None:
+            return self._urows_cache
+        raw = self._read(db or self.usage_db, USAGE_TABLES)
+        if db is None:
+            self._urows_cache = raw
+        return raw
 
     # ---- stepping
     def message_for(self, ev):
@@ -364,6 +377,8 @@ class World(object):
     def _end(self, r, snap):
         self._cur = None
         r.commits = self.n_commits - self._c0
+        self._rows_cache = None
+        self._urows_cache = None
         if snap:
             r.after = self.channel_rows()
             if self.usage_db is not None:
@@ -420,6 +435,18 @@ class World(object):
         if k == "tick":
             return self._tick(ev, float(ev[1]), snap)
         if k == "restart":
+            return [self._restart(ev, snap)]
+        if k == "splitK":
+            # C11, world K: all clients vanish, the server object lives on; the next periodic sweep fires
+            out = self._step(("dropall",), snap)
+            nt = self.next_timer()
+            out += self._tick(ev, nt - self.now(), snap)
+            return out
+        if k == "splitR":
+            # C11, world R: the process dies just before its next periodic sweep and is started again
+            # at that instant (so both worlds keep the same sweep phase)
+            nt = self.next_timer()
+            self.reactor.rightNow = nt
             return [self._restart(ev, snap)]
         if k == "choice":
             # sets the rank random.choice will use from now on (part of the allocate label)
